@@ -25,7 +25,9 @@ PROP = {
                    " Area Misc of the translator (tools/trspecs/Misc.py): DataColumnTraits::GetVertices, UIntMath::Ceil and the offset arithmetic of "
                    "pvAddEdges (Ceil + advance + max alignment), pvFillAddends (root addend), pvAdd (mutable-bit bytes), pvGetOffset (wrapping sum) and "
                    "maxColumnCount are TRANSLATED from the header text on every run and proved equal to the model functions (Proof/TrEqMisc2Col.lean; "
-                   "C18_vertices_translated, C18_ceil_translated, C18_layout_step_translated, C18_lookup_translated)."),
+                   "C18_vertices_translated, C18_ceil_translated, C18_layout_step_translated, C18_lookup_translated)."
+                   " Second wave (tools/trspecs/Wave2.py, Proof/TrEqWave2Col.lean): pvGetOffset is translated as a whole (both reads of mAddends at the vertices and the "
+                   "wrapping sum) and proved equal to getOffsetWith (C18_getOffset_translated)."),
     "level_note": ("Trusted: Lean kernel, the three standard axioms, extractor, correspondence harness (g++, -fno-access-control). Modelled not verified: "
                    "item types enter only as (size, alignment); a column is identified with its code (two columns with equal codes are one column to the "
                    "list, as in the C++); offsets are naturals and the hypothesis Small excludes their 64-bit wrap (addends are computed mod 2^64 as in "
@@ -50,6 +52,7 @@ PROP = {
         "Momo.Col.C18_ceil_translated",
         "Momo.Col.C18_layout_step_translated",
         "Momo.Col.C18_lookup_translated",
+        "Momo.Col.C18_getOffset_translated",
     ],
     "harnesses": _PARTS + _SAN,
     "rule": ("6 executables x 2 logVertexCount values (4..15) plus two ASan+UBSan executables (L=5, L=12); per value 5 suites: engineered uint64 codes without/with row number, string-hash codes "
